@@ -27,27 +27,122 @@ def _n(e):
     return ast.unparse(e).replace(' ', '')
 
 
+class _NoEval(Exception):
+    pass
+
+
+def _tiny_eval(e, env):
+    """value of a table-building expression over literals, range / ord / chr / len, string.* constants, str predicates,
+    comprehensions and conditional expressions; nothing of the repository is executed"""
+    import string as _string
+    if isinstance(e, ast.Constant):
+        return e.value
+    if isinstance(e, ast.Name):
+        if e.id in env:
+            return env[e.id]
+        if e.id in ('None', 'True', 'False'):
+            return {'None': None, 'True': True, 'False': False}[e.id]
+        raise _NoEval(e.id)
+    if isinstance(e, ast.Attribute) and isinstance(e.value, ast.Name) and e.value.id == 'string' and e.attr in ('printable', 'ascii_letters', 'digits', 'punctuation', 'whitespace', 'ascii_uppercase', 'ascii_lowercase'):
+        return getattr(_string, e.attr)
+    if isinstance(e, ast.IfExp):
+        return _tiny_eval(e.body, env) if _tiny_eval(e.test, env) else _tiny_eval(e.orelse, env)
+    if isinstance(e, ast.BoolOp):
+        v = None
+        for x in e.values:
+            v = _tiny_eval(x, env)
+            if isinstance(e.op, ast.And) and not v or isinstance(e.op, ast.Or) and v:
+                return v
+        return v
+    if isinstance(e, ast.UnaryOp) and isinstance(e.op, ast.Not):
+        return not _tiny_eval(e.operand, env)
+    if isinstance(e, ast.Compare) and len(e.ops) == 1:
+        a, b2 = _tiny_eval(e.left, env), _tiny_eval(e.comparators[0], env)
+        import operator as op
+        ops = {ast.In: lambda x, y: x in y, ast.NotIn: lambda x, y: x not in y, ast.Eq: op.eq, ast.NotEq: op.ne, ast.Lt: op.lt, ast.LtE: op.le, ast.Gt: op.gt, ast.GtE: op.ge,
+               ast.Is: op.is_, ast.IsNot: op.is_not}
+        if type(e.ops[0]) not in ops:
+            raise _NoEval('cmp')
+        return ops[type(e.ops[0])](a, b2)
+    if isinstance(e, ast.Call) and isinstance(e.func, ast.Name) and e.func.id in ('range', 'ord', 'chr', 'len', 'dict', 'list', 'set', 'tuple', 'sorted', 'str', 'int') and not e.keywords:
+        args = [_tiny_eval(a, env) for a in e.args]
+        if e.func.id == 'range' and any(abs(x) > 70000 for x in args):
+            raise _NoEval('range too large')
+        return {'range': range, 'ord': ord, 'chr': chr, 'len': len, 'dict': dict, 'list': list, 'set': set, 'tuple': tuple, 'sorted': sorted, 'str': str, 'int': int}[e.func.id](*args)
+    if isinstance(e, ast.Call) and isinstance(e.func, ast.Attribute) and not e.keywords and e.func.attr in ('isprintable', 'isspace', 'isalnum', 'isalpha', 'isdigit', 'isascii', 'upper', 'lower', 'keys', 'values', 'items'):
+        recv = _tiny_eval(e.func.value, env)
+        if not isinstance(recv, (str, dict)) or e.args:
+            raise _NoEval('method')
+        return getattr(recv, e.func.attr)()
+    if isinstance(e, ast.Dict):
+        out = {}
+        for k, v in zip(e.keys, e.values):
+            if k is None:
+                out.update(_tiny_eval(v, env))
+            else:
+                out[_tiny_eval(k, env)] = _tiny_eval(v, env)
+        return out
+    if isinstance(e, (ast.List, ast.Tuple, ast.Set)):
+        vals = [_tiny_eval(x, env) for x in e.elts]
+        return vals if isinstance(e, ast.List) else (tuple(vals) if isinstance(e, ast.Tuple) else set(vals))
+    if isinstance(e, (ast.DictComp, ast.ListComp, ast.SetComp)):
+        results = []
+
+        def rec(gi, env2):
+            if gi == len(e.generators):
+                results.append((_tiny_eval(e.key, env2), _tiny_eval(e.value, env2)) if isinstance(e, ast.DictComp) else _tiny_eval(e.elt, env2))
+                return
+            g = e.generators[gi]
+            for item in _tiny_eval(g.iter, env2):
+                env3 = dict(env2)
+                if isinstance(g.target, ast.Name):
+                    env3[g.target.id] = item
+                elif isinstance(g.target, ast.Tuple) and all(isinstance(t, ast.Name) for t in g.target.elts):
+                    for t, v in zip(g.target.elts, item):
+                        env3[t.id] = v
+                else:
+                    raise _NoEval('target')
+                if all(_tiny_eval(c, env3) for c in g.ifs):
+                    rec(gi + 1, env3)
+        rec(0, env)
+        return dict(results) if isinstance(e, ast.DictComp) else (results if isinstance(e, ast.ListComp) else set(results))
+    raise _NoEval(type(e).__name__)
+
+
 def check_sanitise(rep, ix, m):
     """Every line is passed through a translation table before it is matched: the table must keep every character of
     string.printable (white space included: fields may be separated by TABs, which the line patterns accept as \\s) and
-    delete only the rest."""
-    base = m.assigns.get('_ASCII_PRINTABLE_MAP')
-    ok = bool(base) and isinstance(base[-1], ast.DictComp) and _n(base[-1]) == '{k:Noneforkinrange(256)}'
-    rep.ob('R-C14-TABLE', f'{M}:_ASCII_PRINTABLE_MAP', 'the table starts by deleting all 256 byte values', ok, found=_n(base[-1]) if base else 'absent', module=m)
-    ups = [st for st in m.tree.body if isinstance(st, ast.Expr) and isinstance(st.value, ast.Call) and _n(st.value.func) == '_ASCII_PRINTABLE_MAP.update']
-    ok = False
-    found = ''
-    if len(ups) == 1 and len(ups[0].value.args) == 1 and isinstance(ups[0].value.args[0], ast.DictComp):
-        dc = ups[0].value.args[0]
-        found = ast.unparse(dc)
-        g = dc.generators
-        ok = len(g) == 1 and not g[0].ifs and _n(g[0].iter) == 'string.printable' and isinstance(g[0].target, ast.Name) and \
-            _n(dc.key) == f'ord({g[0].target.id})' and _n(dc.value) == g[0].target.id
-    rep.ob('R-C14-TABLE', f'{M}:_ASCII_PRINTABLE_MAP', 'then keeps every character of string.printable unchanged (no filter: TAB and the other white space stay field separators)', ok,
-           found=found or f'{len(ups)} update statement(s)', required='{ord(c): c for c in string.printable}', module=m)
-    muts = [n for n in ast.walk(m.tree) if isinstance(n, (ast.Subscript, ast.Attribute)) and isinstance(getattr(n, 'value', None), ast.Name) and n.value.id == '_ASCII_PRINTABLE_MAP'
-            and not (isinstance(n, ast.Attribute) and n.attr == 'update')]
-    rep.ob('R-C14-TABLE', f'{M}:_ASCII_PRINTABLE_MAP', 'nothing else edits the table', not muts, found=str([ast.unparse(x) for x in muts]), module=m)
+    delete only the rest.  The table is evaluated from its defining statements (literals, comprehensions and builtins only),
+    however they are written."""
+    import string as _string
+    env = {}
+    err = ''
+    n_stmts = 0
+    try:
+        for st in m.tree.body:
+            if isinstance(st, ast.Assign) and len(st.targets) == 1 and isinstance(st.targets[0], ast.Name) and st.targets[0].id == '_ASCII_PRINTABLE_MAP':
+                env['_ASCII_PRINTABLE_MAP'] = _tiny_eval(st.value, env)
+                n_stmts += 1
+            elif isinstance(st, ast.Expr) and isinstance(st.value, ast.Call) and _n(st.value.func) == '_ASCII_PRINTABLE_MAP.update' and len(st.value.args) == 1:
+                env['_ASCII_PRINTABLE_MAP'].update(_tiny_eval(st.value.args[0], env))
+                n_stmts += 1
+            elif isinstance(st, (ast.Assign, ast.AugAssign, ast.Delete)) and any(isinstance(x, ast.Subscript) and _n(x.value) == '_ASCII_PRINTABLE_MAP' for x in ast.walk(st)):
+                raise _NoEval('item assignment at module level')
+    except (_NoEval, KeyError, TypeError, ValueError) as exc:
+        err = f'not evaluable: {exc}'
+    table = env.get('_ASCII_PRINTABLE_MAP')
+    ok = not err and isinstance(table, dict)
+    rep.ob('R-C14-TABLE', f'{M}:_ASCII_PRINTABLE_MAP', 'the sanitising table is built from literals and comprehensions at module level', ok, found=err or f'{n_stmts} statement(s)', module=m)
+    if ok:
+        lost = sorted(c for c in _string.printable if table.get(ord(c), c) != c)
+        rep.ob('R-C14-TABLE', f'{M}:_ASCII_PRINTABLE_MAP', 'every character of string.printable is kept unchanged (TAB and the other white space stay field separators)', not lost,
+               found=f'changed or deleted: {[hex(ord(c)) for c in lost]}', required='ord(c) -> c for c in string.printable', module=m)
+        kept = sorted(i for i in range(256) if chr(i) not in _string.printable and table.get(i, chr(i)) is not None)
+        rep.ob('R-C14-TABLE', f'{M}:_ASCII_PRINTABLE_MAP', 'every other byte value below 256 is deleted', not kept, found=f'kept: {[hex(i) for i in kept[:12]]}', required='None', module=m)
+    muts = [n for f_ in ast.walk(m.tree) if isinstance(f_, ast.FunctionDef) for n in ast.walk(f_)
+            if isinstance(n, (ast.Subscript, ast.Attribute)) and isinstance(getattr(n, 'value', None), ast.Name) and n.value.id == '_ASCII_PRINTABLE_MAP'
+            and (isinstance(getattr(n, 'ctx', None), (ast.Store, ast.Del)) or isinstance(n, ast.Attribute) and n.attr in common.MUTATORS)]
+    rep.ob('R-C14-TABLE', f'{M}:_ASCII_PRINTABLE_MAP', 'no function edits the table', not muts, found=str([ast.unparse(x) for x in muts]), module=m)
     t = m.assigns.get('ASCII_PRINTABLE_TABLE')
     rep.ob('R-C14-TABLE', f'{M}:ASCII_PRINTABLE_TABLE', 'the translation table is built from that map', bool(t) and _n(t[-1]) == 'str.maketrans(_ASCII_PRINTABLE_MAP)', module=m)
     f = ix.get_func(M, '_parse_file')
